@@ -23,6 +23,7 @@ type ObGroup struct {
 	Instances []*Obligation
 	ReplayGo  string
 	ReplayDir string
+	ReplayGen func(model map[string]string) string // builds the replay test from the solver's model
 	// result
 	Status  string // proved | trivial | failed | unknown | vacuous(canary proved) | reachable(canary ok)
 	Solver  string
